@@ -78,6 +78,12 @@ def check_case(case):
     out.classes = sorted(feats)
     out.nontrivial = bool(feats & OPERATOR_FEATURES) or has_missing or boundary
     compare_decode(out, case.bytes, case.values(), case.labels(), case.meta, case.ids)
+    if not out.failures and int(case.key()[6:8], 16) % 8 == 0:
+        # the same with debug logging switched on (--debug): the decoder then keeps its values in audited lists
+        out.classes = sorted(set(out.classes) | {'also_with_debug_logging'})
+        with sut.debug_logging():
+            compare_decode(out, case.bytes, case.values(), case.labels(), case.meta, case.ids)
+        out.failures = [('debug logging on: ' + c, d) for c, d in out.failures]
     return out
 
 
